@@ -159,3 +159,58 @@ search:
 		t.Fatalf("%d violations of: a written CDB returns every value, in order, and nothing else", fails)
 	}
 }
+
+// Large tables: 20000 distinct keys (about 78 records in each of the 256 tables, so every slot list grows well past
+// any small reserved capacity), one key with 100 values interleaved with the others, 500 absent keys. Every key must
+// return exactly its values in put order, then io.EOF.
+func TestVerifBoundedCdbRoundTripLarge(t *testing.T) {
+	dir := t.TempDir()
+	fn := path.Join(dir, "large.cdb")
+	w, err := NewWriter(fn)
+	if err != nil {
+		t.Fatal(err)
+	}
+	want := map[string][]string{}
+	put := func(k, v string) {
+		if err := w.Put([]byte(k), []byte(v)); err != nil {
+			t.Fatalf("Put(%q): %v", k, err)
+		}
+		want[k] = append(want[k], v)
+	}
+	for i := 0; i < 20000; i++ {
+		put(fmt.Sprintf("key-%d", i), fmt.Sprintf("value-%d", i))
+		if i%200 == 0 {
+			put("pool.example.com.", fmt.Sprintf("192.0.2.%d", i/200))
+		}
+	}
+	if err := w.Close(); err != nil {
+		t.Fatal(err)
+	}
+	c, err := Open(fn)
+	if err != nil {
+		t.Fatal(err)
+	}
+	defer c.Close()
+	ctx := NewContext()
+	check := func(k string, vals []string) {
+		c.FindStart(ctx)
+		for i, v := range vals {
+			got, err := c.FindNext([]byte(k), ctx)
+			if err != nil {
+				t.Fatalf("BOUNDED-FAIL key %q: value #%d of %d: error %v", k, i, len(vals), err)
+			}
+			if !bytes.Equal(got, []byte(v)) {
+				t.Fatalf("BOUNDED-FAIL key %q: value #%d: got %q, want %q", k, i, got, v)
+			}
+		}
+		if _, err := c.FindNext([]byte(k), ctx); !errors.Is(err, io.EOF) {
+			t.Fatalf("BOUNDED-FAIL key %q: after %d values: %v, want io.EOF", k, len(vals), err)
+		}
+	}
+	for k, vals := range want {
+		check(k, vals)
+	}
+	for i := 0; i < 500; i++ {
+		check(fmt.Sprintf("absent-%d", i), nil)
+	}
+}
